@@ -153,10 +153,22 @@ func workerMain(args []string) int {
 		timeout = 60 * time.Second
 	}
 	go func() {
+		lastProgress := int64(-1)
 		for {
 			time.Sleep(500 * time.Millisecond)
 			st := runStarted.Load()
 			if st == 0 {
+				continue
+			}
+			if pr := atomic.LoadInt64(&core.Progress); pr != lastProgress {
+				// the simulation scheduled something since the last look: the clocks start again
+				// (a run that keeps scheduling is ended by its own step budget, not by this watchdog)
+				if lastProgress >= 0 {
+					if runStarted.CompareAndSwap(st, time.Now().UnixNano()) { // (not if the run ended meanwhile)
+						runStartCPU.Store(cpuNanos())
+					}
+				}
+				lastProgress = pr
 				continue
 			}
 			cpu := time.Duration(cpuNanos() - runStartCPU.Load())
